@@ -5,6 +5,7 @@ import (
 	"flag"
 	"fmt"
 	"os"
+	"os/exec"
 	"path/filepath"
 	"regexp"
 	"sort"
@@ -20,15 +21,16 @@ import (
 // ---------------------------------------------------------------------------------------------
 
 type PropSpec struct {
-	ID        string     `json:"id"`
-	Module    string     `json:"module"`   // "" = root module (schema, atp); "codegen" = cmd/arcaflow-codegen
-	Entries   []PropFunc `json:"entries"`
-	Lemmas    []string   `json:"lemmas"`
-	Note      string     `json:"note"`
-	Scope     string     `json:"scope"`     // what part of the property statement is decided
-	NotCovered []string  `json:"not_covered"`
-	Bounded   []string   `json:"bounded"`   // names of bounded stand-ins (run by the thorough tier)
-	Exclude   []string   `json:"exclude_classes"`
+	ID             string     `json:"id"`
+	Module         string     `json:"module"` // "" = root module (schema, atp); "codegen" = cmd/arcaflow-codegen
+	Entries        []PropFunc `json:"entries"`
+	Lemmas         []string   `json:"lemmas"`
+	Note           string     `json:"note"`
+	Scope          string     `json:"scope"` // what part of the property statement is decided
+	NotCovered     []string   `json:"not_covered"`
+	Bounded        []string   `json:"bounded"` // names of bounded stand-ins (run by the thorough tier)
+	Exclude        []string   `json:"exclude_classes"`
+	standinReports []map[string]any
 }
 
 type PropFunc struct {
@@ -336,6 +338,7 @@ func cmdCheck(args []string) {
 	}
 	os.MkdirAll(replayDir, 0o755)
 	exit := 0
+	nStandinViol := 0
 	for _, k := range known {
 		fmt.Println(k)
 	}
@@ -383,9 +386,23 @@ func cmdCheck(args []string) {
 		}
 	}
 
+	// bounded stand-ins (labelled bounded, never counted as discharged)
+	var standinReports []map[string]any
+	for _, b := range spec.Bounded {
+		rep, fails := runStandin(*repo, *verif, b, *tier)
+		standinReports = append(standinReports, rep)
+		if len(fails) > 0 {
+			path := filepath.Join(replayDir, "standin-"+sanitize(strings.SplitN(b, "|", 2)[0])+".txt")
+			os.WriteFile(path, []byte(strings.Join(fails, "\n")+"\n"), 0o644)
+			fmt.Printf("VIOLATION property=%s replay=%s bounded stand-in %s: %d failing cases, first: %s\n", *prop, path, strings.SplitN(b, "|", 2)[0], len(fails), trunc(fails[0], 200))
+			exit = 1
+			nStandinViol++
+		}
+	}
 	// evidence
 	if !*noEvidence {
-		ev := buildEvidence(e, spec, *prop, *tier, seed, reports, nObl, nDis, len(viols)+len(problems), solverCount, solverSecs, samples, knownObls, undecided, missing, unsupportedFns, time.Since(t0).Seconds(), *verif)
+		spec.standinReports = standinReports
+		ev := buildEvidence(e, spec, *prop, *tier, seed, reports, nObl, nDis, len(viols)+len(problems)+nStandinViol, solverCount, solverSecs, samples, knownObls, undecided, missing, unsupportedFns, time.Since(t0).Seconds(), *verif)
 		os.MkdirAll(filepath.Join(*verif, "evidence"), 0o755)
 		data, _ := json.MarshalIndent(ev, "", " ")
 		os.WriteFile(filepath.Join(*verif, "evidence", *prop+".json"), data, 0o644)
@@ -514,4 +531,42 @@ func (u *Unit) checkFindingClass(o *Obl, f *Finding, dir string, timeout time.Du
 	o.Model = o2.Model
 	o.Raw = o2.Raw
 	return false, o2.Status
+}
+
+// runStandin runs one bounded stand-in: "name|file under /verif/standins|TestName|package dir". The test is injected
+// with go test -overlay and prints "STANDIN <id> checked=N failures=K bound=..." and "STANDIN-FAIL ..." lines.
+func runStandin(repo, verif, spec, tier string) (map[string]any, []string) {
+	parts := strings.Split(spec, "|")
+	rep := map[string]any{"name": parts[0], "kind": "bounded stand-in (not a proof)"}
+	if len(parts) < 4 {
+		rep["error"] = "bad stand-in spec"
+		return rep, []string{"bad stand-in spec " + spec}
+	}
+	src := filepath.Join(verif, "standins", parts[1])
+	dir, _ := os.MkdirTemp("", "govc-standin")
+	defer os.RemoveAll(dir)
+	ov := filepath.Join(dir, "ov.json")
+	target := filepath.Join(repo, parts[3], "zz_govc_standin_test.go")
+	os.WriteFile(ov, []byte(fmt.Sprintf(`{"Replace":{%q:%q}}`, target, src)), 0o644)
+	cmd := exec.Command("go", "test", "-overlay", ov, "-vet=off", "-count=1", "-timeout", "600s", "-v", "-run", "^"+parts[2]+"$", "./"+parts[3])
+	cmd.Dir = repo
+	cmd.Env = append(os.Environ(), "GOFLAGS=-mod=mod", "GOPROXY=off", "GOSUMDB=off", "GOTOOLCHAIN=local", "GOVC_TIER="+tier)
+	out, err := cmd.CombinedOutput()
+	var fails []string
+	summary := ""
+	for _, ln := range strings.Split(string(out), "\n") {
+		if strings.HasPrefix(ln, "STANDIN-FAIL") {
+			fails = append(fails, ln)
+		} else if strings.HasPrefix(ln, "STANDIN ") {
+			summary = ln
+		}
+	}
+	if summary == "" {
+		fails = append(fails, "stand-in did not run: "+trunc(string(out), 600))
+	} else if err != nil && len(fails) == 0 {
+		fails = append(fails, "stand-in test failed: "+trunc(string(out), 600))
+	}
+	rep["summary"] = summary
+	rep["failures"] = len(fails)
+	return rep, fails
 }
